@@ -50,6 +50,9 @@ def make_file(rng, d, small=False):
     ns = int(rng.integers(200, 900 if small else 3000))
     if flat:
         nc = int(rng.integers(1, 4))
+        if rng.random() < 0.5:
+            # sizes that the reader's "is this a 384 / 385 channel Neuropixel file?" heuristic for metadata-less files responds to
+            ns = int(rng.choice([384, 385])) * int(rng.integers(1, 3 if small else 8))
         raw = rng.integers(-32768, 32768, (ns, nc), dtype=np.int64).astype(np.int16)
         Path(d).mkdir(parents=True, exist_ok=True)
         b = Path(d) / "flat.bin"
